@@ -223,8 +223,14 @@ pub enum ReadClass {
 /// logical level (no bytes involved). `v` is a value of version `w` (all declared fields). Returns the value of
 /// version `r` or the specific error, plus the classes of reader branches that were exercised.
 pub fn expected_read(versions: &[Record], w: usize, r: usize, v: &Val) -> (Result<Val, ReadErr>, Vec<ReadClass>) {
-    let wr = &versions[w];
-    let rr = &versions[r];
+    expected_read_adapt(&versions[w], &versions[r], versions.last().unwrap(), w, r, v, &mut |_, _, x| Ok(x.clone()))
+}
+
+/// The same with the writer's and the reader's record given separately (their field *types* may differ where a
+/// nested declaration has a history of its own): `adapt(writer field type, reader field type, written value)` says
+/// what the reader makes of a value that reaches it (after wrapping / unwrapping); an error there is the outcome of
+/// the whole read, in field order.
+pub fn expected_read_adapt(wr: &Record, rr: &Record, last: &Record, w: usize, r: usize, v: &Val, adapt: &mut dyn FnMut(&Ty, &Ty, &Val) -> Result<Val, ReadErr>) -> (Result<Val, ReadErr>, Vec<ReadClass>) {
     let wvals = match v {
         Val::Rec(fs) => fs,
         _ => panic!("expected_read: not a record value"),
@@ -263,17 +269,27 @@ pub fn expected_read(versions: &[Record], w: usize, r: usize, v: &Val) -> (Resul
         assert!(wf.transient.is_none(), "writer field is serialized");
         let x = &wvals[wi];
         // o = index of the step that made the field optional (0: never)
-        let o = versions.last().unwrap().made_optional_at(&g.name);
+        let o = last.made_optional_at(&g.name);
         let wrap = o > 0 && w < o && o <= r;
         let unwrap = o > 0 && r < o && o <= w;
+        let inner_of = |t: &Ty| match t {
+            Ty::Option(i) => (**i).clone(),
+            other => panic!("optional field has type {other:?}"),
+        };
         if wrap {
             classes.push(ReadClass::Wrap);
-            out.push(Val::some(x.clone()));
+            match adapt(&wf.ty, &inner_of(&g.ty), x) {
+                Ok(y) => out.push(Val::some(y)),
+                Err(e) => return (Err(e), classes),
+            }
         } else if unwrap {
             match x {
                 Val::Some(y) => {
                     classes.push(ReadClass::Unwrap);
-                    out.push((**y).clone());
+                    match adapt(&inner_of(&wf.ty), &g.ty, y) {
+                        Ok(z) => out.push(z),
+                        Err(e) => return (Err(e), classes),
+                    }
                 }
                 Val::None => {
                     classes.push(ReadClass::UnwrapError);
@@ -283,7 +299,10 @@ pub fn expected_read(versions: &[Record], w: usize, r: usize, v: &Val) -> (Resul
             }
         } else {
             classes.push(ReadClass::Plain);
-            out.push(x.clone());
+            match adapt(&wf.ty, &g.ty, x) {
+                Ok(y) => out.push(y),
+                Err(e) => return (Err(e), classes),
+            }
         }
     }
     (Ok(Val::Rec(out)), classes)
